@@ -59,6 +59,9 @@ func (P *Prog) verifyFunction(fn *ssa.Function, ct *Contract) (rep *FnReport) {
 func (P *Prog) verifyFunctionCase(fn *ssa.Function, ct *Contract, splitParam string, splitVal int64) (rep *FnReport) {
 	rep = &FnReport{Fn: fn.String(), HasCtr: ct != nil}
 	ex := &Exec{P: P, fn: fn, contract: ct}
+	if snap, ok := P.nameSnap[fn.String()]; ok {
+		ex.rename = renameMap(snap, declNames(fn))
+	}
 	defer func() {
 		if r := recover(); r != nil {
 			if u, ok := r.(unsupported); ok {
